@@ -1,7 +1,17 @@
 #!/usr/bin/env python3-vt
 """Regenerate MANIFEST.json from tools/manifest_src.json (per-property entries) and validate it."""
 import json, sys
-src = json.load(open('/verif/tools/manifest_src.json'))
+import os, glob
+src = {"checks": {}, "not_applicable": {}, "source_commits": [], "notes": "See DESIGN.md. ./check <ID> --tier quick|thorough; evidence/<ID>.json rewritten on every run; KNOWN_FINDINGS.json (assembled from known_findings/<ID>.json) lists recorded defects."}
+for fn in sorted(glob.glob('/verif/manifest/C*.json')):
+    src["checks"][os.path.basename(fn)[:-5]] = json.load(open(fn))
+if os.path.exists('/verif/manifest/_global.json'):
+    src.update(json.load(open('/verif/manifest/_global.json')))
+# assemble KNOWN_FINDINGS.json
+allf = []
+for fn in sorted(glob.glob('/verif/known_findings/C*.json')):
+    allf += json.load(open(fn))["findings"]
+json.dump({"comment": "Assembled by tools/mkmanifest.py from known_findings/<ID>.json (the files the checks read). Committed; never written at run time. status open = recorded defect (suppresses exactly the described failure, printed as KNOWN-FINDING); status fixed = repaired by the named fix: commit (suppresses nothing).", "findings": allf}, open('/verif/KNOWN_FINDINGS.json', 'w'), indent=1)
 props = [json.loads(l) for l in open('/verif/properties.jsonl')]
 checks, na = [], []
 for p in props:
